@@ -90,7 +90,30 @@ class SchemaGen:
             return self.enum("")
         return self.fixed("")
 
-    def prim(self, kinds=PRIM_KINDS):
+    LOGICALS = [("int", "date"), ("int", "time-millis"), ("long", "time-micros"), ("long", "timestamp-millis"),
+                ("long", "timestamp-micros"), ("long", "local-timestamp-millis"), ("long", "local-timestamp-micros"),
+                ("string", "uuid"), ("bytes", "decimal"), ("fixed", "decimal")]
+
+    def logical_type(self, ns):
+        base, lt = self.ch.pick(self.LOGICALS)
+        if lt != "decimal":
+            return {"type": base, "logicalType": lt}
+        prec = 1 + self.ch.draw(20)
+        scale = self.ch.draw(min(prec, 6) + 1)
+        if base == "bytes":
+            return {"type": "bytes", "logicalType": "decimal", "precision": prec, "scale": scale}
+        attrs, full, tns = self._new_name("fixed", ns)
+        size = 1
+        while int((8 * size - 1) * 0.30102999566398114) < prec:
+            size += 1
+        s = dict(type="fixed", size=size + self.ch.draw(2), logicalType="decimal", precision=prec, scale=scale, **attrs)
+        self.defined.append((full, tns, "fixed"))
+        return s
+
+    def prim(self, kinds=PRIM_KINDS, ns=""):
+        if self.p["logical"] and self.ch.chance(25):
+            self.stats["logical"] = self.stats.get("logical", 0) + 1
+            return self.logical_type(ns)
         k = self.ch.pick(kinds)
         if self.ch.chance(15):
             return {"type": k}
@@ -188,12 +211,14 @@ class SchemaGen:
     def recursive_ref(self, ns):
         if not self.p["recursion"] or not self.open:
             return None
+        if self.p["recursion"] == "nullable-once" and self.stats["recursive"] >= 1:
+            return None
         full, tns = self.ch.pick(self.open)
         sp = self._ref_spelling(full, tns, ns)
         if sp is None:
             return None
         self.stats["recursive"] += 1
-        how = self.ch.draw(3)
+        how = 0 if self.p["recursion"] == "nullable-once" else self.ch.draw(3)
         if how == 0:
             return ["null", sp]
         if how == 1:
@@ -210,7 +235,7 @@ class SchemaGen:
             w[3] = 0
         k = ch.weighted(w)
         if k == 0:
-            return self.prim()
+            return self.prim(ns=ns)
         if k == 1:
             return {"type": "array", "items": self.type(depth + 1, ns)}
         if k == 2:
@@ -238,6 +263,8 @@ class SchemaGen:
             return self.default_for(t[0], ns)
         if isinstance(t, dict):
             k = t["type"]
+            if "logicalType" in t:
+                return False, None
             if k == "array":
                 return True, []
             if k == "map":
